@@ -33,7 +33,7 @@ structure Loaded where
   writes : List (Nat × Byte)
   low : Nat
   high : Nat
-  deriving Repr
+  deriving Repr, DecidableEq
 
 /-- the outer `while(1)`; `fuel` ≥ number of tokens + 1 -/
 def loop : Nat → List Char → Nat → Nat → Nat → List (Nat × Byte) → Loaded
